@@ -48,6 +48,11 @@ def make_project(seed):
         for i in range(1, len(p.names)):
             if r.random() < 0.5:
                 p.extras[i] = f'bad_{i}: Int = "s{i}"'
+    for i, js in p.unused.items():
+        for j in js:
+            # the never-looked-into module always has something to report
+            p.extras[j] = r.choice([f"unused_{j} = {j}", f'bad_{j}: Int = "s{j}"'])
+            mode = mode + "+lazy"
     p.mode = mode
     return p
 
